@@ -12,6 +12,7 @@ import GFO.Model.Smbo
 import GFO.Model.Local
 import GFO.Model.GridBackend
 import GFO.Model.Population
+import GFO.Model.Evolution
 open GFO GFO.Proto
 
 /-- one recorded backend interaction of the real run -/
@@ -25,19 +26,32 @@ inductive PopCfg where
   | pt (c : PTCfg)
   | pso (c : LocalCfg)
   | spiral (c : LocalCfg)
+  | es (c : ESCfg)
+  | de (c : DECfg)
+  | ga (c : GACfg)
 deriving Inhabited
 
-def popBackend : PopCfg → Backend PopSt
-  | .pt c => ptBackend c
-  | .pso c => psoBackend c
-  | .spiral c => spiralBackend c
+def liftPop (b : Backend PopSt) : Backend GASt where
+  initPos g := (b.initPos g.pop).map (fun x => (x.1, { g with pop := x.2 }))
+  evalInit g x := (b.evalInit g.pop x).map (fun s => { g with pop := s })
+  finishInit g := (b.finishInit g.pop).map (fun s => { g with pop := s })
+  iterate g := (b.iterate g.pop).map (fun x => (x.1, { g with pop := x.2 }))
+  evaluate g x := (b.evaluate g.pop x).map (fun s => { g with pop := s })
+
+def popBackend : PopCfg → Backend GASt
+  | .pt c => liftPop (ptBackend c)
+  | .pso c => liftPop (psoBackend c)
+  | .spiral c => liftPop (spiralBackend c)
+  | .es c => liftPop (esBackend c)
+  | .de c => liftPop (deBackend c)
+  | .ga c => gaBackend c
 
 /-- scripted backend: replays the positions the real optimizer emitted, insisting on the same call kinds -/
 structure Script where
   queue : List Item := []
   loc : Option (LocalCfg × Local) := none       -- when present: the COMPLETE backend model (GFO.Model.Local) is driven instead
   grid : Option (GridCfg × GridSt) := none      -- when present: the complete grid search model (GFO.Model.GridBackend)
-  pt : Option (PopCfg × PopSt) := none          -- when present: a complete population model (GFO.Model.Population)
+  pt : Option (PopCfg × GASt) := none           -- when present: a complete population model (GFO.Model.Population / Evolution)
 deriving Inhabited
 
 def Script.raisesNow (s : Script) : Bool := match s.queue with
@@ -290,13 +304,19 @@ def exec (m : M) (cmd : String) : P (M × List String) := do
       | "a" => do let pa ← pF; let r ← pRat; pure (Draw.accept pa r)
       | "p" => do let p ← pN nd pInt; let v ← pN nd pF; pure (Draw.part p v)
       | "s" => do let v ← pN nd pF; pure (Draw.spiral v)
+      | "o" => do let l ← pList pNat; pure (Draw.sorted l)
+      | "i" => do let k ← pNat; pure (Draw.int k)
+      | "n" => do let x ← pRat; pure (Draw.npunif x)
+      | "h" => do let l ← pList pNat; pure (Draw.choice l)
+      | "m" => do let v ← pN nd pF; pure (Draw.mutant v)
+      | "g" => do let l ← pList pNat; pure (Draw.parents l)
       | k => throw s!"draw? {k}"
     match m.d.bst.loc, m.d.bst.grid with
     | some (cfg, l), _ => pure ({ m with d := { m.d with bst := { m.d.bst with loc := some (cfg, { l with tape := l.tape ++ [e] }) } } }, [])
     | none, some (cfg, g) => pure ({ m with d := { m.d with bst := { m.d.bst with grid := some (cfg, { g with tape := g.tape ++ [e] }) } } }, [])
     | none, none =>
       match m.d.bst.pt with
-      | some (cfg, g) => pure ({ m with d := { m.d with bst := { m.d.bst with pt := some (cfg, { g with tape := g.tape ++ [e] }) } } }, [])
+      | some (cfg, g) => pure ({ m with d := { m.d with bst := { m.d.bst with pt := some (cfg, { g with pop := { g.pop with tape := g.pop.tape ++ [e] } }) } } }, [])
       | none => throw "no complete backend"
   | "gnew" => do
     let nInits ← pNat
@@ -321,19 +341,26 @@ def exec (m : M) (cmd : String) : P (M × List String) := do
     let nInits ← pNat
     let nNb ← pNat
     let rrp ← pRat
-    let nSwap ← pNat
+    let nSwap ← pNat                 -- pt: n_iter_swap; ga: offspring
+    let mrate ← pRat                 -- es / ga: mutation_rate
+    let eps ← pRat                   -- de / ga: the literal 0.3 of `_constraint_loop`
     let inits ← pList (pList (pN m.sp.dims.length pInt))
     let members : List Local := inits.map (fun l => { initL := l })
+    let hc : LocalCfg := { kind := .hillClimbing, nNeighbours := nNb, randRestP := rrp, geo := m.sp.geo }
     let cfg : PopCfg ← match kind with
-      | "pt" => pure (PopCfg.pt { member := { kind := .stochastic, nNeighbours := nNb, randRestP := rrp, geo := m.sp.geo }, nIterSwap := nSwap })
-      | "pso" => pure (PopCfg.pso { kind := .hillClimbing, nNeighbours := nNb, randRestP := rrp, geo := m.sp.geo })
-      | "spiral" => pure (PopCfg.spiral { kind := .hillClimbing, nNeighbours := nNb, randRestP := rrp, geo := m.sp.geo })
+      | "pt" => pure (PopCfg.pt { member := { hc with kind := .stochastic }, nIterSwap := nSwap })
+      | "pso" => pure (PopCfg.pso hc)
+      | "spiral" => pure (PopCfg.spiral hc)
+      | "es" => pure (PopCfg.es { member := hc, mutationRate := mrate })
+      | "de" => pure (PopCfg.de { member := hc, epsMod := eps })
+      | "ga" => pure (PopCfg.ga { member := hc, mutationRate := mrate, nOffspring := nSwap, epsMod := eps })
       | k => throw s!"population kind? {k}"
-    pure ({ m with d := { nInits := nInits, bst := { pt := some (cfg, { members := members }) } }, call := none, warm := [], steps := #[], byCall := #[] }, ["ok"])
+    pure ({ m with d := { nInits := nInits, bst := { pt := some (cfg, { pop := { members := members } }) } }, call := none, warm := [], steps := #[], byCall := #[] }, ["ok"])
   | "pstate" =>
     match m.d.bst.pt with
     | some (_, g) =>
-      pure (m, [s!"outer {showTracker g.tr}"] ++ g.members.map (fun mb => s!"member {showTracker mb.tr}") ++ [s!"pop cur={g.cur} tapeLeft={g.tape.length}"])
+      pure (m, [s!"outer {showTracker g.pop.tr}"] ++ g.pop.members.map (fun mb => s!"member {showTracker mb.tr}") ++
+                [s!"pop cur={g.pop.cur} tapeLeft={g.pop.tape.length} offspring={showList showPos g.offspring}"])
     | none => pure (m, ["err:no-population-backend"])
   | "lstep" => do
     let dur ← pRat; let r ← pRes
